@@ -250,7 +250,11 @@ type c18RealEnv struct {
 }
 
 func c18StartReal() *c18RealEnv {
-	dir, err := os.MkdirTemp("", "c18api")
+	parent := ""
+	if st, err := os.Stat("/dev/shm"); err == nil && st.IsDir() {
+		parent = "/dev/shm" // etcd's WAL fsyncs off a possibly busy disk
+	}
+	dir, err := os.MkdirTemp(parent, "c18api")
 	if err != nil {
 		panic(err)
 	}
